@@ -7,8 +7,9 @@ every user id (in PGPy's order) and of every subkey incl. extracted embedded sig
 created / exportable / primary mark / flags+expiry+preferences; per user id the effective (selfsig) attributes; key expiry;
 revocation reports; lock state; and the same for the public twin.  Direct oracle on the real code (independent of the model):
 every signature of every key object verifies cryptographically under the issuer's public half - on the object, on its twin, after
-re-import of bytes(key), of str(key) and of bytes(key.pubkey); selfsig is the self-issued signature with the greatest
-(created, order of addition); a removed identity is gone from the object and its exports; revocation reports change only for the
+re-import of bytes(key), of str(key) and of bytes(key.pubkey); selfsig is the self-issued CERTIFICATION (0x10-0x13) with the greatest
+(created, order of addition) - a revocation or an attestation by the key leaves effective attributes and key expiry unchanged
+(repair 812bc0f); a removed identity is gone from the object and its exports; revocation reports change only for the
 revoked component; twin and private half list the same identities and signatures."""
 import copy, hashlib, itertools, warnings
 from datetime import datetime, timedelta, timezone
@@ -22,7 +23,7 @@ PINS = {
     'PGPKey.add_uid': '4b9172b325eca43b', 'PGPKey.del_uid': 'ef782ed32572b539', 'PGPKey.add_subkey': 'ba2057f1997077f8', 'PGPKey.bind': 'a596300c4f9a6c24',
     'PGPKey.certify': 'fa3a26a4d6fbacd9', 'PGPKey.revoke': '0a06ad2822a8071a', 'PGPKey.revoker': 'dda913b648d20985', 'PGPKey.get_uid': '02f8faf42768e92d',
     'PGPKey.expires_at': 'd58d9d409e12c3bf', 'PGPKey.revocation_signatures': '386c01b9fb6862f3', 'PGPKey._get_key_flags': 'dc9a988c0f8dba20',
-    'PGPKey.protect': '9e6d18e357fc4384', 'PGPKey.unlock': 'd42388a5e251dbc8', 'KeyAction.__call__': '4c949a55df3a3092', 'KeyAction.usage': '16a7e9cd1f721410',
+    'PGPKey.protect': '9e6d18e357fc4384', 'PGPKey.unlock': 'a08e792702a5ffe3', 'KeyAction.__call__': '4c949a55df3a3092', 'KeyAction.usage': '16a7e9cd1f721410',
 }
 
 
@@ -187,6 +188,15 @@ class RealWorld:
         u = self.find_uid(o['k'], isuid, cid)
         if u is None: return 'skip'
         u |= o['k'].revoke(u, created=self.t(t), hash=H.SHA256)
+
+    def op_attest(self, k, isuid, cid, t):
+        """an Attestation Key Signature (0x16) made by the key on its own identity"""
+        from pgpy.constants import HashAlgorithm as H, SignatureType as ST
+        o = self.obj(k)
+        if o is None: return 'skip'
+        u = self.find_uid(o['k'], isuid, cid)
+        if u is None: return 'skip'
+        u |= o['k'].certify(u, ST.Attestation, attested_certifications=[], created=self.t(t), hash=H.SHA256)
 
     def op_addsub(self, k, label, cansign, flags, t):
         from pgpy.constants import PubKeyAlgorithm as A, EllipticCurveOID as C, KeyFlags as F, HashAlgorithm as H
@@ -429,18 +439,37 @@ class RealWorld:
                     if ((sorted(a) != sorted(b)) if nonexp_self else (a != b)) or [self.lab(s) for s in r._children.values()] != [self.lab(s) for s in k._children.values()] \
                        or self.keysigs(r) != self.keysigs(k):
                         fails.append('re-import of %s of object %d: identities / exportable signatures / subkeys differ' % (what, i))
-                # most recent self-signature wins; later-added of two same-second signatures wins
+                # most recent self-certification wins (a revocation / attestation by the key is not one: repair 812bc0f);
+                # later-added of two same-second signatures wins
                 kid = k.fingerprint.keyid
                 for u in k._uids:
-                    mine = [s for s in u._signatures if s.signer == kid]
+                    mine = [s for s in u._signatures if s.signer == kid and int(s.type) in (0x10, 0x11, 0x12, 0x13)]
                     ss = u.selfsig
                     if not mine:
-                        if ss is not None: fails.append('object %d: selfsig without self-issued signature' % i)
+                        if ss is not None: fails.append('object %d: selfsig without self-issued certification' % i)
                         continue
                     best = max(mine, key=lambda s: (s.created, self.seq.get(bytes(s.__bytearray__()), 0)))
                     if ss is None or bytes(ss.__bytearray__()) != bytes(best.__bytearray__()):
-                        fails.append('object %d: selfsig of uid %d is not the most recent self-issued signature' % (i, self.cid(u)))
+                        fails.append('object %d: selfsig of uid %d is not the most recent self-issued certification' % (i, self.cid(u)))
         return fails
+
+    def effective_of(self, i):
+        """effective (selfsig-derived) attributes of every identity of object i and the key expiry, as key_s prints them"""
+        o = self.obj(i)
+        if o is None: return None
+        with warnings.catch_warnings():
+            warnings.simplefilter('ignore')
+            k = o['k']
+            eff, exps = [], set()
+            for u in k._uids:
+                ss = u.selfsig
+                eff.append((bool(u.is_uid), self.cid(u), 'none' if ss is None else '%d/%s/%d' % (int(ss.type), self.info(ss), 1 if u.is_primary else 0)))
+                if u.is_uid and ss is not None and ss.key_expiration is not None:
+                    exps.add(int(ss.key_expiration.total_seconds()))
+            ex = k.expires_at
+            # identities that compare equal under PGPUID.__lt__ may change places when one of them is re-sorted, and expires_at takes
+            # the LAST identity that has an expiration: the expiry is compared only when all identities agree on it
+            return (sorted(eff), (-1 if ex is None else int((ex - k.created).total_seconds())) if len(exps) <= 1 else 'several')
 
     def reports(self):
         """revocation reports per component (PGPKey.revocation_signatures; certificate revocations on user ids)"""
@@ -518,6 +547,7 @@ def run_history_(ctx, pgpy, d, cmds, suite, check_from=0, oracle_every=True, cas
             reports = rw.reports()
             if cmd[0] == 'deluid' and rw.obj(cmd[1]) is not None:
                 ndel_before = sum(1 for u in rw.obj(cmd[1])['k'].userids if u.name == 'uid%d' % int(cmd[2]))
+            eff_before = rw.effective_of(cmd[1]) if cmd[0] in ('revuid', 'attest') else None
         res = rw.do(cmd)
         m = d.call(*cmd)
         if rw.getuid_fail is not None:
@@ -540,6 +570,14 @@ def run_history_(ctx, pgpy, d, cmds, suite, check_from=0, oracle_every=True, cas
             fails = rw.oracle(light=light, only=touched)
             if fails:
                 ctx.fail(suite, 'direct oracle after step %d (%s): %s' % (n, ' '.join(cmd), '; '.join(fails[:3])), dict(case, step=n))
+                return False
+        if cmd[0] in ('revuid', 'attest') and eff_before is not None:
+            # direct oracle (repair 812bc0f): a certification revocation / attestation by the key is not a self-certification -
+            # flags, preferences, primary mark of every identity and the key expiry stay what they were
+            eff_after = rw.effective_of(cmd[1])
+            if eff_after != eff_before:
+                ctx.fail(suite, 'effective attributes / key expiry changed by %s at step %d' % (cmd[0], n),
+                         dict(case, step=n, before=repr(eff_before)[:300], after=repr(eff_after)[:300]))
                 return False
         sf = rw.shadow_fail()
         if sf:
@@ -579,7 +617,7 @@ PREAMBLE = [('create', '0'), ('create', '1'), ('adduid', '0', '1', '1', P1, '1',
 
 def alphabet(size):
     """operation templates; 'T' is replaced by the time of the step, 'L' by a fresh subkey label.
-    size: 'core' (10 instances) < 'small' (20) < 'full' (38)"""
+    size: 'core' (10 instances) < 'small' (21) < 'full' (41)"""
     core = [
         ('adduid', '0', '1', '3', P3, '1', 'T'),
         ('recert', '0', '1', '1', P2, '0', 'T'),
@@ -603,6 +641,7 @@ def alphabet(size):
         ('certify', '1', '2', '1', '1', '1', 'T'),     # certify the published copy (object 2, if there is one)
         ('adduid', '0', '1', '11', P1, '1', 'T'),      # 'uid1' is a proper substring of this identity, which sorts first (primary, newer)
         ('certkey', '1', '0', '0', 'T'),               # third-party direct-key signature, non-exportable
+        ('attest', '0', '1', '1', 'T'),                # attestation newer than (or of the same second as) the certification
     ]
     full = small + [
         ('revuid', '0', '1', '3', 'T'),
@@ -617,6 +656,7 @@ def alphabet(size):
         ('revkey', '1', 'T'),
         ('certkey', '1', '0', '1', 'T'), ('certkey', '0', '0', 'n', 'T'), ('certkey', '1', '2', '0', 'T'),
         ('deluid', '0', '11'),
+        ('attest', '0', '1', '3', 'T'), ('attest', '0', '0', '4', 'T'),
     ]
     return {'core': core, 'small': small, 'full': full}[size]
 
@@ -650,7 +690,7 @@ def random_walk(rng, n):
         pool = cids.get(0, [1]) + [1, 2, 5, 11]
         c = rng.choice(pool)
         isu = '0' if c >= 100 else '1'
-        op = rng.choice(('adduid', 'adduid', 'recert', 'recert', 'certify', 'certify', 'certkey', 'revuid', 'addsub', 'revsub', 'revkey', 'revoker',
+        op = rng.choice(('adduid', 'adduid', 'recert', 'recert', 'certify', 'certify', 'certkey', 'revuid', 'attest', 'addsub', 'revsub', 'revkey', 'revoker',
                          'deluid', 'protect', 'unlock', 'lock', 'copy', 'reimport', 'publish'))
         P = rng.choice((P1, P2, P3, P4))
         if op == 'adduid':
@@ -672,6 +712,8 @@ def random_walk(rng, n):
             cmds.append(('certkey', str(rng.choice((0, 1, 1))), str(k), rng.choice('n0011'), str(t)))
         elif op == 'revuid':
             if rng.random() < 0.5: cmds.append(('revuid', str(k), isu, str(c), str(t)))
+        elif op == 'attest':
+            if rng.random() < 0.6: cmds.append(('attest', str(k), isu, str(c), str(t)))
         elif op == 'addsub':
             if len(subs) < 3:
                 cs = rng.choice('01')
@@ -751,6 +793,14 @@ CORPUS = [
                                           ('reimport', '2')]),
     ('same-second-selfsigs', PREAMBLE + [('recert', '0', '1', '1', P2, '0', '5'), ('recert', '0', '1', '1', P3, '0', '5'), ('copy', '0'), ('reimport', '0')]),
     ('revoke-then-recertify', PREAMBLE + [('revuid', '0', '1', '1', '3'), ('recert', '0', '1', '1', P2, '1', '3'), ('recert', '0', '1', '1', P1, '0', '2'), ('publish', '0')]),
+    # repair 812bc0f: an identity revoked / attested AFTER an expiring certification keeps flags, preferences, primary mark; the key keeps its expiry
+    ('revoked-after-expiring-certification', PREAMBLE + [('adduid', '0', '1', '3', P3, '1', '2'), ('revuid', '0', '1', '3', '5'), ('revuid', '0', '1', '1', '5'), ('publish', '0'),
+                                                        ('copy', '0'), ('reimport', '0'), ('recert', '0', '1', '3', P2, '0', '6'), ('revuid', '0', '1', '3', '6')]),
+    ('attestation-newer-than-certification', PREAMBLE + [('adduid', '0', '1', '3', P3, '1', '2'), ('attest', '0', '1', '3', '5'), ('attest', '0', '1', '1', '1'), ('attest', '0', '1', '1', '0'),
+                                                         ('certify', '1', '0', '1', '3', 'n', '5'), ('attest', '0', '1', '3', '6'), ('revuid', '0', '1', '3', '6'), ('publish', '0'),
+                                                         ('copy', '0'), ('reimport', '0'), ('adduid', '0', '0', '104', P4, '1', '7'), ('attest', '0', '0', '104', '8'), ('revuid', '0', '0', '104', '9')]),
+    ('revoked-only-identity-still-signs', [('create', '0'), ('adduid', '0', '1', '1', P3, '1', '1'), ('revuid', '0', '1', '1', '5'), ('attest', '0', '1', '1', '5'),
+                                           ('addsub', '0', '10', '1', '2', '6'), ('revkey', '0', '7'), ('reimport', '0')]),
     ('three-primaries-revoke-middle', PREAMBLE + [('adduid', '0', '1', '2', P1, '1', '2'), ('adduid', '0', '1', '3', P1, '1', '3'), ('revuid', '0', '1', '2', '10'),
                                                  ('copy', '0'), ('reimport', '0')]),
     ('subkey-after-twin', PREAMBLE + [('publish', '0'), ('addsub', '0', '10', '1', '2', '4'), ('addsub', '0', '11', '0', '12', '4'), ('revsub', '0', '10', '4'),
@@ -767,22 +817,61 @@ CORPUS = [
 
 
 def regressions(ctx, pgpy, d):
-    """repair d951222 (stale user id order): the real code must follow the repaired model step, not the old one"""
+    """repair d951222 (stale user id order) and repair 812bc0f (selfsig = newest self-certification): the real code must follow the
+    repaired model, not the old one"""
     suite = 'regression'
-    cmds = PREAMBLE + [('adduid', '0', '1', '2', P1, '1', '2'), ('adduid', '0', '1', '3', P1, '1', '3'), ('revuid', '0', '1', '2', '10')]
+    # since 812bc0f a revocation no longer changes the sort key of an identity; a re-certification without the primary mark does
+    cmds = PREAMBLE + [('adduid', '0', '1', '2', P1, '1', '2'), ('adduid', '0', '1', '3', P1, '1', '3'), ('recert', '0', '1', '2', P1, '0', '10')]
     ctx.case(suite, 'uid-order-after-resort', sample={'cmds': [' '.join(c) for c in cmds]})
-    rw = RealWorld(pgpy)
-    d.call('reset')
-    for c in cmds[:-1]:
-        rw.do(c); d.call(*c)
-    rw.do(cmds[-1])
-    old, _ = strip_model(d.call('old', *cmds[-1]))
-    st = rw.state()
-    k = rw.objs[0]['k']
-    with warnings.catch_warnings():
-        warnings.simplefilter('ignore')
-        if st == old or bytes(copy.copy(k)) != bytes(k):
-            ctx.fail(suite, 'user id list left unsorted by SorteDeque.resort: a copy exports the user ids in another order', {'suite': suite, 'cmds': [list(c) for c in cmds]})
+    case = {'suite': suite, 'cmds': [list(c) for c in cmds]}
+    try:
+        rw = RealWorld(pgpy)
+        d.call('reset')
+        for c in cmds[:-1]:
+            rw.do(c); d.call(*c)
+        rw.do(cmds[-1])
+        old, _ = strip_model(d.call('old', *cmds[-1]))
+        st = rw.state()
+        k = rw.objs[0]['k']
+        with warnings.catch_warnings():
+            warnings.simplefilter('ignore')
+            if st == old or bytes(copy.copy(k)) != bytes(k):
+                ctx.fail(suite, 'user id list left unsorted by SorteDeque.resort: a copy exports the user ids in another order', case)
+    except Exception as ex:
+        from .common import DriverError
+        if isinstance(ex, DriverError):
+            raise
+        ctx.fail(suite, 'exception while examining the keys: %s: %s' % (type(ex).__name__, str(ex)[:120]), case)
+    # 812bc0f: the witnesses of Props/C15.v C15_selfsig_old_refuted (identity certified with a key expiration, then revoked / attested)
+    for name, last in (('selfsig-after-revocation', ('revuid', '0', '1', '1', '5')), ('selfsig-after-attestation', ('attest', '0', '1', '1', '5'))):
+        cmds = [('create', '0'), ('adduid', '0', '1', '1', P3, '1', '1'), last]
+        ctx.case(suite, name, sample={'cmds': [' '.join(c) for c in cmds]})
+        case = {'suite': suite, 'cmds': [list(c) for c in cmds]}
+        try:
+            rw = RealWorld(pgpy)
+            d.call('reset')
+            for c in cmds:
+                rw.do(c); d.call(*c)
+            new, _ = strip_model(d.call('state'))
+            old, _ = strip_model(d.call('state_old'))
+            st = rw.state()
+            k = rw.objs[0]['k']
+            with warnings.catch_warnings():
+                warnings.simplefilter('ignore')
+                u = k.userids[0]
+                ss = u.selfsig
+                direct = (ss is not None and int(ss.type) == 0x13 and u.is_primary and k.expires_at is not None
+                          and int((k.expires_at - k.created).total_seconds()) == 630720000 and sum(int(f) for f in ss.key_flags) == 12)
+            if new == old:
+                ctx.broken.append('regression %s: the model before repair 812bc0f does not differ from the repaired one on its own witness' % name)
+            if st == old or st != new or not direct:
+                ctx.fail(suite, 'a certification revocation / attestation by the key hides the self-certification: flags, primary mark and key '
+                                'expiration of the identity read as unset (PGPUID.selfsig before repair 812bc0f)', case)
+        except Exception as ex:
+            from .common import DriverError
+            if isinstance(ex, DriverError):
+                raise
+            ctx.fail(suite, 'exception while examining the keys: %s: %s' % (type(ex).__name__, str(ex)[:120]), case)
 
 
 # ------------------------------------------------------------------ shared with C14
